@@ -75,6 +75,21 @@ def gen_cases(ctx, rng):
                       "sink_delay": [slow, 0], "ops": [{"at": R, "op": "add", "toxic": L.tx("timeout", name="t", timeout=T)}],
                       "horizon": 3600 * 1000 * L.MS, "seed": 5000 + i, "c10": {"family": "add", "at": A, "T": T}})
         stats["added_under_back_pressure"] += 1
+    # T changed by an update while the toxic is in effect on an established connection: the update takes effect on it - closed T' ms after
+    # the update (held open if T' = 0), whatever the old T promised
+    stats["T_updated"] = 0
+    for i in range(16 if ctx.tier == "quick" else 400):
+        T1, T2 = rng.choice([(400, 2000), (5000, 300), (0, 700), (600, 0), (300, 300)])
+        U = rng.range(50, 250) * L.MS + rng.range(1, 999)
+        src, t = [], rng.range(1, 20) * L.MS + 7
+        for _ in range(rng.range(0, 6)):
+            src.append({"at": t, "n": rng.range(1, 800)})
+            t += rng.choice([7, 60, 200]) * L.MS + rng.range(1, 999)
+        src.append({"at": U + 20000 * L.MS, "close": True})
+        cases.append({"dir": rng.choice(["upstream", "downstream"]), "chain": [L.tx("timeout", name="t", timeout=T1)], "src": src,
+                      "ops": [{"at": U, "op": "update", "name": "t", "body": '{"attributes": {"timeout": %d}}' % T2}],
+                      "horizon": 3600 * 1000 * L.MS, "seed": 6000 + i, "c10": {"family": "update", "at": U, "T1": T1, "T2": T2}})
+        stats["T_updated"] += 1
     # several connections through the same toxic, established at different times: each gets its own T
     stats["staggered_connections"] = 0
     for i in range(30 if ctx.tier == "quick" else 800):
@@ -106,6 +121,21 @@ def oracle(case, res):
         exp = R if (T == 0 or R < T * L.MS) else T * L.MS
         if res["closed"] != exp:
             return "connection closed at %d ns, expected %d ns (%s)" % (res["closed"], exp, "the removal" if exp == R else "T")
+        return None
+    if fam and fam["family"] == "update":
+        U, T1, T2 = fam["at"], fam["T1"], fam["T2"]
+        if res["total"] != 0:
+            return "%d bytes were delivered while the timeout toxic was in effect" % res["total"]
+        sc = [e["at"] for e in case["src"] if e.get("close")][0]
+        if T1 > 0 and T1 * L.MS < U:
+            exp = T1 * L.MS                      # the old deadline passed before the update
+        elif T2 > 0:
+            exp = U + T2 * L.MS
+        else:
+            exp = sc
+        if res["closed"] != exp:
+            return ("connection closed at %d ns, expected %d ns (timeout updated from %d to %d ms at %d ns: the new value counts from the update)"
+                    % (res["closed"], exp, T1, T2, U))
         return None
     if fam and fam["family"] == "add":
         A, T = fam["at"], fam["T"]
@@ -147,7 +177,7 @@ def oracle(case, res):
 
 def side(ctx, proof):
     from . import tcp as T
-    return T.timeout_under_lock_runs(ctx, (6 if ctx.tier == "quick" else 120) * (1 if proof["build_ok"] else 3))
+    return T.stable(lambda: T.timeout_under_lock_runs(ctx, (6 if ctx.tier == "quick" else 120) * (1 if proof["build_ok"] else 3)))
 
 
 def run(ctx):
